@@ -16,7 +16,10 @@ verus! {
 
 pub mod crypto {
     use vstd::prelude::*;
-    #[verifier::external_body] pub struct PublicKey { _p: u8 }
+    #[verifier::external_body] #[derive(Clone, Copy)] pub struct PublicKey { _p: u8 }
+    // stand-ins for crypto::Block / ExternalSignature: the field build_inner reads
+    pub struct ExternalSignature { pub public_key: PublicKey, pub verif_rest: u64 }
+    pub struct Block { pub external_signature: Option<ExternalSignature>, pub verif_rest: u64 }
 }
 pub mod datalog2 {
     use vstd::prelude::*;
@@ -29,11 +32,29 @@ pub mod datalog2 {
     #[verifier::external_body] pub struct Fact { _p: u8 }
     impl Clone for Fact { #[verifier::external_body] fn clone(&self) -> (r: Self) ensures r == *self { unimplemented!() } }
     #[verifier::external_body] pub struct Check { _p: u8 }
-    #[verifier::external_body] pub struct SymbolTable { _p: u8 }
+    pub struct PublicKeys { pub keys: Vec<crate::crypto::PublicKey> }
+    pub struct SymbolTable { pub public_keys: PublicKeys, pub verif_rest: u64 }
+    impl PublicKeys {
+        // ASSUMED (iter().position(closure)): the index of the first equal key, appended when absent
+        #[verifier::external_body]
+        pub fn insert(&mut self, k: &crate::crypto::PublicKey) -> (r: u64)
+            ensures final(self).keys@ == (if old(self).keys@.contains(*k) { old(self).keys@ } else { old(self).keys@.push(*k) }),
+                    r < final(self).keys@.len(), final(self).keys@[r as int] == *k, final(self).keys@.len() <= usize::MAX
+        { unimplemented!() }
+    }
     impl Clone for SymbolTable { #[verifier::external_body] fn clone(&self) -> (r: Self) ensures r == *self { unimplemented!() } }
     #[verifier::external_body] pub struct FactSet { _p: u8 }
     #[verifier::external_body] pub struct RuleSet { _p: u8 }
-    pub struct World { pub facts: FactSet, pub rules: RuleSet, pub verif_rest: u64 }
+    #[verifier::external_body] pub struct ExternFunc { _p: u8 }
+    pub struct World { pub facts: FactSet, pub rules: RuleSet, pub iterations: u64, pub extern_funcs: std::collections::HashMap<String, ExternFunc> }
+    impl World {
+        #[verifier::external_body]
+        pub fn new() -> (r: World) ensures fs_view(r.facts) == Set::<(Set<usize>, Fact)>::empty(), rs_view(r.rules) == Set::<(usize, Set<usize>, Rule)>::empty(), r.iterations == 0 { unimplemented!() }
+    }
+    impl SymbolTable {
+        #[verifier::external_body]
+        pub fn new() -> (r: SymbolTable) ensures r.public_keys.keys@ == Seq::<crate::crypto::PublicKey>::empty() { unimplemented!() }
+    }
     // content of the stores: (origin set, fact) pairs; (owning block, trusted set, rule) triples
     pub uninterp spec fn fs_view(f: FactSet) -> Set<(Set<usize>, Fact)>;
     pub uninterp spec fn rs_view(r: RuleSet) -> Set<(usize, Set<usize>, Rule)>;
@@ -65,6 +86,22 @@ pub mod builder {
     use crate::error;
     #[verifier::external_body] pub struct Fact { _p: u8 }
     #[verifier::external_body] pub struct Check { _p: u8 }
+    #[verifier::external_body] pub struct Rule { _p: u8 }
+    #[verifier::external_body] pub struct Scope { _p: u8 }
+    #[verifier::external_body] pub struct Policy { _p: u8 }
+    //@extract biscuit-auth/src/token/builder/block.rs :: struct BlockBuilder
+    //@end
+    pub uninterp spec fn conv_rule(r: Rule) -> datalog2::Rule;
+    pub uninterp spec fn conv_scope(s: Scope) -> crate::token::Scope;
+    impl Rule {
+        #[verifier::external_body]
+        pub fn convert(&self, symbols: &mut datalog2::SymbolTable) -> (r: datalog2::Rule) ensures r == conv_rule(*self) { unimplemented!() }
+    }
+    // `scopes.clone().iter().map(|s| s.convert(&mut symbols)).collect()`
+    #[verifier::external_body]
+    pub fn verif_convert_scopes(scopes: &Vec<Scope>, symbols: &mut datalog2::SymbolTable) -> (r: Vec<crate::token::Scope>)
+        ensures r@.len() == scopes@.len(), forall|i: int| 0 <= i < scopes@.len() ==> r@[i] == conv_scope(#[trigger] scopes@[i])
+    { unimplemented!() }
     // ORACLES: Datalog -> builder (reads the source symbol table) and builder -> Datalog (interning in the target table is
     // not modelled: the Datalog object is a function of the builder object)
     pub uninterp spec fn fact_from(f: datalog2::Fact, s: datalog2::SymbolTable) -> Result<Fact, error::Format>;
@@ -94,7 +131,7 @@ pub mod token2 {
     use crate::datalog2::{SymbolTable, Fact, Rule, Check};
     use crate::crypto::PublicKey;
     use crate::token::Scope;
-    #[verifier::external_body] pub struct PublicKeys { _p: u8 }
+    pub use crate::datalog2::PublicKeys;
     //@extract biscuit-auth/src/token/block.rs :: struct Block
     //@end
 }
@@ -155,6 +192,101 @@ pub mod authorizer_builder {
     //@ ensures rules_kept: forall|e: (usize, Set<usize>, Rule)| rs_view(old(world).rules).contains(e) ==> rs_view(final(world).rules).contains(e)
     //@end
 }
+pub mod token3 {
+    use vstd::prelude::*;
+    use crate::datalog2::SymbolTable;
+    // stand-ins for format::SerializedBiscuit and token::Biscuit: the fields build_inner reads
+    pub struct SerializedBiscuit { pub blocks: Vec<crate::crypto::Block>, pub verif_rest: u64 }
+    pub struct Biscuit { pub container: SerializedBiscuit, pub symbols: SymbolTable, pub verif_rest: u64 }
+    impl Biscuit {
+        // ASSUMED: token representation invariant rep() (the decoded block list is as long as the container's,
+        // proved for every constructor in unit token): block_count = 1 + number of non-authority blocks
+        #[verifier::external_body]
+        pub fn block_count(&self) -> (r: usize) ensures r == 1 + self.container.blocks@.len() { unimplemented!() }
+    }
+}
+pub mod authorizer2 {
+    use vstd::prelude::*;
+    use crate::verif_std::*;
+    use crate::builder::{BlockBuilder, Policy, Fact as BFact2, Rule as BRule, Scope as BScope, conv_rule, conv_scope, fact_to};
+    use crate::token2::Block;
+    use crate::token3::Biscuit;
+    use crate::datalog2 as datalog;
+    use crate::datalog2::{SymbolTable, World, ExternFunc, Fact, Rule, fs_view, rs_view};
+    use crate::datalog::origin::{Origin, TrustedOrigins};
+    use crate::error;
+    use crate::token;
+    use std::collections::HashMap;
+    use crate::ospec::*;
+    use crate::lspec::*;
+    broadcast use {crate::error::qm_axioms, vstd::std_specs::hash::group_hash_axioms};
+    #[verifier::external_body] pub struct AuthorizerLimits { _p: u8 }
+    #[verifier::external_body] pub struct Duration { _p: u8 }
+
+    //@extract biscuit-auth/src/token/authorizer.rs :: struct Authorizer
+    //@end
+    //@extract biscuit-auth/src/token/builder/authorizer.rs :: struct AuthorizerBuilder
+    //@end
+
+    // `public_key_to_block_id.entry(k).or_default().push(v)`
+    #[verifier::external_body]
+    pub fn verif_map_push(m: &mut HashMap<usize, Vec<usize>>, k: usize, v: usize)
+        ensures final(m)@.dom() == old(m)@.dom().insert(k),
+                final(m)@[k]@ == (if old(m)@.contains_key(k) { old(m)@[k]@ } else { Seq::<usize>::empty() }).push(v),
+                forall|k2: usize| k2 != k && old(m)@.contains_key(k2) ==> final(m)@[k2] == old(m)@[k2]
+    { unimplemented!() }
+    // rule A5 (statement as oracle): `blocks = Some(token.blocks().enumerate().map(|(i, block)| .. load_and_translate_block(&mut b, i, ..) ..).collect()?)`
+    // iterator adaptors + closures capturing &mut: outside Verus. ASSUMED: one decoded block per container block plus the authority,
+    // the key -> block map is only read (load_and_translate_block::ensures.key_map_untouched, proved above)
+    #[verifier::external_body]
+    pub fn verif_load_blocks(token: &Biscuit, symbols: &mut SymbolTable, m: &mut HashMap<usize, Vec<usize>>, world: &mut World) -> (r: Result<Vec<Block>, error::Token>)
+        ensures *final(m) == *old(m), r is Ok ==> r->Ok_0@.len() == 1 + token.container.blocks@.len(),
+                final(world).iterations == old(world).iterations, final(world).extern_funcs == old(world).extern_funcs,
+                // block indices are below usize::MAX (load_and_translate_block::ensures.facts_origin / rules_scope with i = block index)
+                forall|p: (Set<usize>, Fact)| fs_view(final(world).facts).contains(p) && !fs_view(old(world).facts).contains(p) ==> !p.0.contains(usize::MAX),
+                forall|e: (usize, Set<usize>, Rule)| rs_view(final(world).rules).contains(e) && !rs_view(old(world).rules).contains(e) ==> e.0 != usize::MAX
+    { unimplemented!() }
+
+    impl AuthorizerBuilder {
+        //@extract biscuit-auth/src/token/builder/authorizer.rs :: impl AuthorizerBuilder :: fn build_inner
+        //@ rewrites R19
+        //@ attr #[verifier::loop_isolation(false)]
+        //@ sub public_key_to_block_id\s*\.entry\(([^()]*)\)\s*\.or_default\(\)\s*\.push\(([^()]*)\); => verif_map_push(&mut public_key_to_block_id, \1, \2); /*pushed*/
+        //@ sub blocks = Some\(\s*token\s*\.blocks\(\)[\s\S]*?\.collect::<Result<Vec<_>, _>>\(\)\?,\s*\); => blocks = Some(verif_load_blocks(token, &mut symbols, &mut public_key_to_block_id, &mut world)?);
+        //@ sub self\s*\.authorizer_block_builder\s*\.scopes\s*\.clone\(\)\s*\.iter\(\)\s*\.map\(\|s\| s\.convert\(&mut symbols\)\)\s*\.collect\(\) => crate::builder::verif_convert_scopes(&self.authorizer_block_builder.scopes, &mut symbols)
+        //@ loop 0 invariant bound: i <= token.container.blocks@.len()
+        //@ loop 0 invariant keys: symbols.public_keys.keys@ == first_keys(token.container.blocks@, i as int) && no_dup(symbols.public_keys.keys@)
+        //@ loop 0 invariant map: keymap_upto(token.container.blocks@, i as int, public_key_to_block_id@)
+        //@ loop 0 decreases token.container.blocks@.len() - i
+        //@ ghost loop 0 start :: let ghost m0 = public_key_to_block_id@; let ghost keys0 = symbols.public_keys.keys@;
+        //@ ghost before "verif_map_push(&mut public_key_to_block_id," :: proof { assert(new_key_id < symbols.public_keys.keys@.len()); assert(symbols.public_keys.keys@.len() <= usize::MAX); assert(new_key_id as usize == new_key_id); }
+        //@ ghost after "/*pushed*/" :: proof { lemma_keymap_step(token.container.blocks@, i as int, m0, public_key_to_block_id@, keys0, symbols.public_keys.keys@, new_key_id as usize); }
+        //@ ghost before "i += 1; } }" :: proof { if token.container.blocks@[i as int].external_signature is None { lemma_keymap_skip(token.container.blocks@, i as int, public_key_to_block_id@); } }
+        //@ ghost before "let mut authorizer_origin" :: proof { if token is Some { let a = [token::Scope::Previous]; assert(a@ =~= seq![token::Scope::Previous]); } }
+        //@ ghost before "for fact in" :: let ghost m = public_key_to_block_id@; let ghost at = authz_trust(self.authorizer_block_builder.scopes@, m); proof { lemma_tset(authorizer_trusted_origins.0.inner@, authorizer_scopes@, default_trust(), usize::MAX, m); assert(authorizer_scopes@ =~= conv_scopes(self.authorizer_block_builder.scopes@)); }
+        //@ loop 1 ghost it1
+        //@ loop 1 invariant frame: world.iterations == 0 && public_key_to_block_id@ == m && authorizer_origin.inner@ =~= set![usize::MAX]
+        //@ loop 1 invariant elems: it1.seq().len() == self.authorizer_block_builder.facts@.len() && forall|k: int| 0 <= k < it1.seq().len() ==> *(#[trigger] it1.seq()[k]) == self.authorizer_block_builder.facts@[k]
+        //@ loop 1 invariant origin: forall|p: (Set<usize>, Fact)| fs_view(world.facts).contains(p) && p.0.contains(usize::MAX) ==> p.0 == set![usize::MAX]
+        //@ loop 1 invariant stored: forall|k: int| 0 <= k < it1.index@ ==> fs_view(world.facts).contains((set![usize::MAX], fact_to(#[trigger] self.authorizer_block_builder.facts@[k])))
+        //@ loop 1 invariant rules: forall|e: (usize, Set<usize>, Rule)| rs_view(world.rules).contains(e) ==> e.0 != usize::MAX
+        //@ ghost after_loop 1 :: let ghost facts1 = world.facts;
+        //@ loop 2 ghost it2
+        //@ loop 2 invariant frame: world.iterations == 0 && public_key_to_block_id@ == m && world.facts == facts1
+        //@ loop 2 invariant elems: it2.seq().len() == self.authorizer_block_builder.rules@.len() && forall|k: int| 0 <= k < it2.seq().len() ==> *(#[trigger] it2.seq()[k]) == self.authorizer_block_builder.rules@[k]
+        //@ loop 2 invariant scope: forall|e: (usize, Set<usize>, Rule)| rs_view(world.rules).contains(e) && e.0 == usize::MAX ==> has_tset(e.1, e.2.scopes@, at, usize::MAX, m)
+        //@ loop 2 invariant stored: forall|k: int| 0 <= k < it2.index@ ==> auth_rule_stored(world.rules, conv_rule(#[trigger] self.authorizer_block_builder.rules@[k]), at, m)
+        //@ ghost before "world.rules.insert(" :: proof { lemma_tset(rule_trusted_origins.0.inner@, rule.scopes@, at, usize::MAX, m); }
+        //@ ensures key_map: r is Ok && token is Some ==> keymap_upto(token->Some_0.container.blocks@, token->Some_0.container.blocks@.len() as int, r->Ok_0.public_key_to_block_id@)
+        //@ ensures key_map_empty: r is Ok && token is None ==> r->Ok_0.public_key_to_block_id@.dom() =~= Set::<usize>::empty()
+        //@ ensures token_origins: r is Ok && token is Some ==> has_tset(r->Ok_0.token_origins.0.inner@, seq![token::Scope::Previous], default_trust(), (1 + token->Some_0.container.blocks@.len()) as usize, r->Ok_0.public_key_to_block_id@)
+        //@ ensures blocks: r is Ok ==> (token is None ==> r->Ok_0.blocks is None) && (token is Some ==> r->Ok_0.blocks is Some && r->Ok_0.blocks->Some_0@.len() == 1 + token->Some_0.container.blocks@.len())
+        //@ ensures auth_facts: r is Ok ==> (forall|p: (Set<usize>, Fact)| fs_view(r->Ok_0.world.facts).contains(p) && p.0.contains(usize::MAX) ==> p.0 == set![usize::MAX]) && forall|k: int| 0 <= k < self.authorizer_block_builder.facts@.len() ==> fs_view(r->Ok_0.world.facts).contains((set![usize::MAX], fact_to(#[trigger] self.authorizer_block_builder.facts@[k])))
+        //@ ensures auth_rules: r is Ok ==> (forall|e: (usize, Set<usize>, Rule)| rs_view(r->Ok_0.world.rules).contains(e) && e.0 == usize::MAX ==> has_tset(e.1, e.2.scopes@, authz_trust(self.authorizer_block_builder.scopes@, r->Ok_0.public_key_to_block_id@), usize::MAX, r->Ok_0.public_key_to_block_id@)) && forall|k: int| 0 <= k < self.authorizer_block_builder.rules@.len() ==> auth_rule_stored(r->Ok_0.world.rules, conv_rule(#[trigger] self.authorizer_block_builder.rules@[k]), authz_trust(self.authorizer_block_builder.scopes@, r->Ok_0.public_key_to_block_id@), r->Ok_0.public_key_to_block_id@)
+        //@ ensures fresh: r is Ok ==> r->Ok_0.execution_time is None && r->Ok_0.world.iterations == 0 && r->Ok_0.limits == self.limits && r->Ok_0.policies == self.policies && r->Ok_0.authorizer_block_builder == self.authorizer_block_builder
+        //@end
+    }
+}
 pub mod lspec {
     use vstd::prelude::*;
     use crate::token2::Block;
@@ -184,6 +316,108 @@ pub mod lspec {
     pub open spec fn block_trust(block_scopes: Seq<Scope>, i: usize, m: Map<usize, Vec<usize>>) -> Set<usize> {
         tset(block_scopes, default_trust(), i, m)
     }
+    // ---- key -> block map (C07: a key scope trusts exactly the blocks signed with that key) ----
+    // the distinct external keys of blocks[0..n), in order of first occurrence: the index of a key in the
+    // authorizer's key table (the table is empty when the loop starts)
+    pub open spec fn first_keys(blocks: Seq<crate::crypto::Block>, n: int) -> Seq<crate::crypto::PublicKey>
+        decreases n
+    {
+        if n <= 0 { Seq::empty() }
+        else {
+            let p = first_keys(blocks, n - 1);
+            match blocks[n - 1].external_signature {
+                Some(sig) => if p.contains(sig.public_key) { p } else { p.push(sig.public_key) },
+                None => p,
+            }
+        }
+    }
+    pub open spec fn key_has(m: Map<usize, Vec<usize>>, k: usize, j: usize) -> bool { m.contains_key(k) && m[k]@.contains(j) }
+    // block j (1-based: container block j - 1) is registered under key index k iff it carries an external signature by that key
+    pub open spec fn keymap_upto(blocks: Seq<crate::crypto::Block>, n: int, m: Map<usize, Vec<usize>>) -> bool {
+        forall|k: usize, j: usize| #[trigger] key_has(m, k, j) <==> (1 <= j <= n && blocks[j - 1].external_signature is Some && k < first_keys(blocks, n).len()
+            && first_keys(blocks, n)[k as int] == blocks[j - 1].external_signature->Some_0.public_key)
+    }
+    pub open spec fn no_dup(s: Seq<crate::crypto::PublicKey>) -> bool { forall|a: int, b: int| 0 <= a < b < s.len() ==> s[a] != s[b] }
+    pub proof fn lemma_first_keys_contains(blocks: Seq<crate::crypto::Block>, n: int, j: int)
+        requires 1 <= j <= n <= blocks.len(), blocks[j - 1].external_signature is Some
+        ensures first_keys(blocks, n).contains(blocks[j - 1].external_signature->Some_0.public_key)
+        decreases n
+    {
+        let pkj = blocks[j - 1].external_signature->Some_0.public_key;
+        let p = first_keys(blocks, n - 1);
+        if j == n {
+            if !p.contains(pkj) { assert(p.push(pkj)[p.len() as int] == pkj); }
+        } else {
+            lemma_first_keys_contains(blocks, n - 1, j);
+            let w = choose|w: int| 0 <= w < p.len() && p[w] == pkj;
+            match blocks[n - 1].external_signature {
+                Some(sig) => { if !p.contains(sig.public_key) { assert(p.push(sig.public_key)[w] == pkj); } }
+                None => {}
+            }
+        }
+    }
+    pub proof fn lemma_keymap_skip(blocks: Seq<crate::crypto::Block>, i: int, m: Map<usize, Vec<usize>>)
+        requires 0 <= i < blocks.len(), keymap_upto(blocks, i, m), blocks[i].external_signature is None
+        ensures keymap_upto(blocks, i + 1, m), first_keys(blocks, i + 1) == first_keys(blocks, i)
+    {
+        assert forall|k: usize, j: usize| #[trigger] key_has(m, k, j) <==> (1 <= j <= i + 1 && blocks[j - 1].external_signature is Some && k < first_keys(blocks, i + 1).len()
+            && first_keys(blocks, i + 1)[k as int] == blocks[j - 1].external_signature->Some_0.public_key) by {}
+    }
+    pub proof fn lemma_keymap_step(blocks: Seq<crate::crypto::Block>, i: int, m0: Map<usize, Vec<usize>>, m1: Map<usize, Vec<usize>>,
+                                   keys0: Seq<crate::crypto::PublicKey>, keys1: Seq<crate::crypto::PublicKey>, r: usize)
+        requires 0 <= i < blocks.len(), i + 1 <= usize::MAX, keys0 == first_keys(blocks, i), no_dup(keys0), keymap_upto(blocks, i, m0),
+                 blocks[i].external_signature is Some,
+                 keys1 == (if keys0.contains(blocks[i].external_signature->Some_0.public_key) { keys0 } else { keys0.push(blocks[i].external_signature->Some_0.public_key) }),
+                 r < keys1.len(), keys1[r as int] == blocks[i].external_signature->Some_0.public_key,
+                 m1.dom() == m0.dom().insert(r),
+                 m1[r]@ == (if m0.contains_key(r) { m0[r]@ } else { Seq::<usize>::empty() }).push((i + 1) as usize),
+                 forall|k2: usize| k2 != r && m0.contains_key(k2) ==> m1[k2] == m0[k2],
+        ensures keys1 == first_keys(blocks, i + 1), no_dup(keys1), keymap_upto(blocks, i + 1, m1)
+    {
+        let pk = blocks[i].external_signature->Some_0.public_key;
+        assert(no_dup(keys1)) by {
+            if !keys0.contains(pk) {
+                assert forall|a: int, b: int| 0 <= a < b < keys1.len() implies keys1[a] != keys1[b] by {
+                    if b == keys0.len() { if keys1[a] == keys1[b] { assert(keys0[a] == pk); assert(keys0.contains(pk)); } }
+                }
+            }
+        }
+        let jn = (i + 1) as usize;
+        assert forall|k: usize, j: usize| #[trigger] key_has(m1, k, j) <==> (1 <= j <= i + 1 && blocks[j - 1].external_signature is Some && k < keys1.len()
+            && keys1[k as int] == blocks[j - 1].external_signature->Some_0.public_key) by {
+            let rhs1 = 1 <= j <= i + 1 && blocks[j - 1].external_signature is Some && k < keys1.len() && keys1[k as int] == blocks[j - 1].external_signature->Some_0.public_key;
+            let rhs0 = 1 <= j <= i && blocks[j - 1].external_signature is Some && k < keys0.len() && keys0[k as int] == blocks[j - 1].external_signature->Some_0.public_key;
+            assert(key_has(m0, k, j) <==> rhs0);
+            // what the push did
+            if k == r {
+                let s0 = if m0.contains_key(r) { m0[r]@ } else { Seq::<usize>::empty() };
+                assert(m1[r]@ == s0.push(jn));
+                assert(m1[r]@.contains(j) <==> (s0.contains(j) || j == jn)) by {
+                    if s0.contains(j) { let w = choose|w: int| 0 <= w < s0.len() && s0[w] == j; assert(s0.push(jn)[w] == j); }
+                    if j == jn { assert(s0.push(jn)[s0.len() as int] == jn); }
+                    if m1[r]@.contains(j) { let w = choose|w: int| 0 <= w < m1[r]@.len() && m1[r]@[w] == j; if w < s0.len() { assert(s0[w] == j); } }
+                }
+                assert(key_has(m1, k, j) <==> (key_has(m0, k, j) || j == jn));
+            } else {
+                assert(key_has(m1, k, j) <==> key_has(m0, k, j));
+            }
+            if j == jn {
+                assert(!key_has(m0, k, j));
+                if k < keys1.len() && keys1[k as int] == pk && k != r { assert(keys1[k as int] == keys1[r as int]); }
+            } else if 1 <= j <= i && blocks[j - 1].external_signature is Some {
+                lemma_first_keys_contains(blocks, i, j as int);
+                if k == keys0.len() && !keys0.contains(pk) { }
+            }
+        }
+    }
+    pub open spec fn conv_scopes(s: Seq<crate::builder::Scope>) -> Seq<Scope> { s.map_values(|x: crate::builder::Scope| crate::builder::conv_scope(x)) }
+    // what the authorizer's own rules and policies trust by default: the authorizer scopes over {authority, authorizer}
+    pub open spec fn authz_trust(scopes: Seq<crate::builder::Scope>, m: Map<usize, Vec<usize>>) -> Set<usize> {
+        tset(conv_scopes(scopes), default_trust(), usize::MAX, m)
+    }
+    pub open spec fn auth_rule_stored(rs: RuleSet, rule: Rule, at: Set<usize>, m: Map<usize, Vec<usize>>) -> bool {
+        rs_view(rs).contains((usize::MAX, tset(rule.scopes@, at, usize::MAX, m), rule))
+    }
     pub open spec fn rule_stored(rs: RuleSet, i: usize, rule: Rule, block_scopes: Seq<Scope>, m: Map<usize, Vec<usize>>) -> bool {
         rs_view(rs).contains((i, tset(rule.scopes@, block_trust(block_scopes, i, m), i, m), rule))
     }
@@ -196,6 +430,13 @@ pub mod lspec {
 //@canary block-trust-wrong-index :: token::builder::authorizer::load_and_translate_block :: &TrustedOrigins::default(),\n        i, ==>> &TrustedOrigins::default(),\n        0,
 //@canary fact-not-stored :: token::builder::authorizer::load_and_translate_block :: world.facts.insert(&block_origin, fact.clone()); ==>> {}
 //@canary rule-scopes-of-block :: token::builder::authorizer::load_and_translate_block :: &rule.scopes, ==>> &block.scopes,
+//@canary key-map-block-index :: token::builder::authorizer::AuthorizerBuilder::build_inner :: .push(i + 1); ==>> .push(i);
+//@canary token-origins-index :: token::builder::authorizer::AuthorizerBuilder::build_inner :: token.block_count(), ==>> token.block_count() - 1,
+//@canary authorizer-rule-default :: token::builder::authorizer::AuthorizerBuilder::build_inner :: &authorizer_trusted_origins, ==>> &TrustedOrigins::default(),
+//@canary authorizer-rule-origin :: token::builder::authorizer::AuthorizerBuilder::build_inner :: world.rules.insert(usize::MAX, ==>> world.rules.insert(0,
+//@canary authorizer-fact-origin :: token::builder::authorizer::AuthorizerBuilder::build_inner :: authorizer_origin.insert(usize::MAX); ==>> authorizer_origin.insert(0);
+//@canary key-map-first-block-as-authority :: token::builder::authorizer::AuthorizerBuilder::build_inner :: .push(i + 1); ==>> .push(if i > 0 { i + 1 } else { 0 });
+//@canary-requires token::builder::authorizer::AuthorizerBuilder::build_inner
 //@canary-requires token::builder::authorizer::load_and_translate_block
 } // verus!
 fn main() {}
